@@ -47,6 +47,7 @@ struct CaseReader {
     off: usize,
     delivered: u64,
     fail_at: Option<u64>,
+    fail_kind: std::io::ErrorKind,
     interrupts: u64,
     endless: Option<Vec<u8>>,
     endless_off: usize,
@@ -65,7 +66,7 @@ impl Read for CaseReader {
                     self.interrupts -= 1;
                     return Err(std::io::Error::new(std::io::ErrorKind::Interrupted, "intr"));
                 }
-                return Err(std::io::Error::new(std::io::ErrorKind::Other, "injected read failure"));
+                return Err(std::io::Error::new(self.fail_kind, "injected read failure"));
             }
         }
         while self.chunk < self.chunks.len() && self.off >= self.chunks[self.chunk].len() {
@@ -198,6 +199,7 @@ fn run_case(case: &Value, tmpdir: &str) -> Value {
         sh.lock().unwrap().opened += 1;
         let mut chunks = vec![];
         let mut fail_at = None;
+        let mut fail_kind = std::io::ErrorKind::Other;
         let mut interrupts = 0;
         let mut endless = None;
         let mut budget = 1 << 20;
@@ -206,6 +208,16 @@ fn run_case(case: &Value, tmpdir: &str) -> Value {
                 chunks.push(unhex(c.as_str().unwrap_or("")));
             }
             fail_at = i["fail_at"].as_u64();
+            // every kind is a failed read (std::io::Bytes retries Interrupted only)
+            fail_kind = match i["fail_kind"].as_str().unwrap_or("other") {
+                "wouldblock" => std::io::ErrorKind::WouldBlock,
+                "timedout" => std::io::ErrorKind::TimedOut,
+                "brokenpipe" => std::io::ErrorKind::BrokenPipe,
+                "unexpectedeof" => std::io::ErrorKind::UnexpectedEof,
+                "connectionreset" => std::io::ErrorKind::ConnectionReset,
+                "invaliddata" => std::io::ErrorKind::InvalidData,
+                _ => std::io::ErrorKind::Other,
+            };
             interrupts = i["interrupts"].as_u64().unwrap_or(0);
             endless = i["endless"].as_str().map(unhex).filter(|v| !v.is_empty());
             budget = i["budget"].as_u64().unwrap_or(1 << 20);
@@ -216,6 +228,7 @@ fn run_case(case: &Value, tmpdir: &str) -> Value {
             off: 0,
             delivered: 0,
             fail_at,
+            fail_kind,
             interrupts,
             endless,
             endless_off: 0,
